@@ -59,6 +59,8 @@ pub enum Op {
     MatchPrepaid { v: u8, t: u8, knob: u16 },
     /// SetPause{true}, a liquidation of the weakest position, SetPause{false}: one block
     PausedLiq { v: u8, who: u8 },
+    /// a trader withdraws / grants again the cw20 allowance of the engine (cw20 deployments only)
+    Allowance { t: u8, grant: bool },
 }
 
 #[derive(Clone, Debug, Serialize, Deserialize, PartialEq, Eq, Hash)]
@@ -101,6 +103,7 @@ pub struct Weights {
     pub lag: u32,
     pub match_prepaid: u32,
     pub paused_liq: u32,
+    pub allowance: u32,
 }
 
 impl Weights {
@@ -137,6 +140,7 @@ impl Weights {
             lag: 0,
             match_prepaid: 0,
             paused_liq: 0,
+            allowance: 0,
         }
     }
 }
@@ -364,6 +368,7 @@ pub fn op_strategy(w: &Weights) -> BoxedStrategy<Op> {
         (w.lag, 28),
         (w.match_prepaid, 29),
         (w.paused_liq, 30),
+        (w.allowance, 31),
     ]
     .into_iter()
     .filter(|(wt, _)| *wt > 0)
@@ -411,7 +416,8 @@ pub fn op_strategy(w: &Weights) -> BoxedStrategy<Op> {
                 27 => Op::Handover { to: s2 },
                 28 => Op::LagSqueeze { v, target: t, knob: k1 },
                 29 => Op::MatchPrepaid { v, t, knob: k1 },
-                _ => Op::PausedLiq { v, who: s2 },
+                30 => Op::PausedLiq { v, who: s2 },
+                _ => Op::Allowance { t, grant: b },
             }
         })
         .boxed()
